@@ -30,6 +30,7 @@ enum Mode {
 pub const ENTRIES: &[Entry] = &[
     p28::S_MAP_FILTER,
     p28::S_ENUMERATE,
+    p28::S_ASYNC_SCAN,
     p28::S_SCAN,
     p28::S_UNIQUE,
     p28::S_LIMIT,
@@ -115,6 +116,10 @@ pub fn run(entry: &Entry, sim: &mut Sim) -> Outcome {
     let (mut plan2, nc2) = sched::partition(sim, &in2, &knobs, bound, EXTRA);
     extend_net(sim, entry, &mut plan2, items);
     sim.event(0x2900 + items as u64, || format!("entry {} inputs {:?}; run 1 releases {:?}; run 2 releases {:?}", entry.name, inputs, plan1.rel, plan2.rel));
+    if entry.name == "s_async_scan" {
+        plan1.pends = (0..items).map(|_| sim.choose("pend", 0, 2) as u8).collect();
+        plan2.pends = (0..items).map(|_| sim.choose("pend", 0, 2) as u8).collect();
+    }
     let ex1 = (entry.exec)(&plan1, &mut SimNet { sim, lazy: lazy_net });
     let ex2 = (entry.exec)(&plan2, &mut SimNet { sim, lazy: lazy_net });
     sim.event(crate::hash_vals(&ex1.outs), || format!("run 1 outputs {:?}", ex1.outs));
